@@ -9,17 +9,20 @@
 (* part in a successful evaluation appends one node to the list             *)
 (* "secondary" of the environment, after the labels of its own sub-rule:    *)
 (*                                                                          *)
-(*   P  LabelsOf("P", ..)  the node the relational rule SELECTED - the      *)
-(*                         candidate (ancestor, descendant, sibling) that   *)
-(*                         satisfied the sub-rule;                          *)
-(*   I  LabelsOf("I", ..)  what the code appends: the node its sub-rule     *)
-(*                         RETURNED (RetOf).  all / any / not / atoms       *)
-(*                         return the node they were asked about, but a     *)
-(*                         relational rule and `matches` return what their  *)
-(*                         own sub-rule returned, so a relational rule      *)
-(*                         whose sub-rule is directly a relational rule (or *)
-(*                         a utility that is one) labels the innermost node *)
-(*                         once more instead of its own candidate.          *)
+(*   LabelsOf("P", ..)    the node the relational rule SELECTED - the        *)
+(*                        candidate (ancestor, descendant, sibling) that    *)
+(*                        satisfied the sub-rule.  This is what the code    *)
+(*                        records since fix 7f25c3d.                        *)
+(*   LabelsOf("pre", ..)  what the code recorded before: the node the       *)
+(*                        sub-rule RETURNED (RetOfPre).  all / any / not /  *)
+(*                        atoms return the node they were asked about, but  *)
+(*                        a relational rule and `matches` returned what     *)
+(*                        their own sub-rule returned, so a relational rule *)
+(*                        whose sub-rule is directly a relational rule (or  *)
+(*                        a utility that is one) labelled the innermost     *)
+(*                        node once more instead of its own candidate - and *)
+(*                        a REWRITER with such a rule replaced that other   *)
+(*                        node instead of the node its rule matched (C06).  *)
 (*                                                                          *)
 (* Attempts that fail leave no label (they run on a copy: All / Any / Not / *)
 (* RuleCore), so the labels of a match are a function of the winning        *)
@@ -63,12 +66,12 @@ Winner(U, T, r, n, env) ==
         ks == { k \in 1..Len(cs) : Eval("clean", U, T, r.sub, cs[k], env).ok } IN
     IF ks = {} THEN 0 ELSE cs[CHOOSE k \in ks : \A j \in ks : k <= j]
 
-RECURSIVE RetOf(_, _, _, _, _)
-\* I: the node a successful match_node_with_env returns
-RetOf(U, T, r, n, env) ==
-    CASE r.op \in Relations -> RetOf(U, T, r.sub, Winner(U, T, r, n, env), env)
-      [] r.op = "matches" -> RetOf(U, T, U.utils[r.id], n, env)
-      [] r.op = "cons" -> RetOf(U, T, r.sub, n, env)
+RECURSIVE RetOfPre(_, _, _, _, _)
+\* the node a successful match_node_with_env returned before fix 7f25c3d (since then: always n)
+RetOfPre(U, T, r, n, env) ==
+    CASE r.op \in Relations -> RetOfPre(U, T, r.sub, Winner(U, T, r, n, env), env)
+      [] r.op = "matches" -> RetOfPre(U, T, U.utils[r.id], n, env)
+      [] r.op = "cons" -> RetOfPre(U, T, r.sub, n, env)
       [] OTHER -> n
 
 RECURSIVE LabelsOf(_, _, _, _, _, _)
@@ -78,7 +81,7 @@ LabelsOf(lv, U, T, r, n, env) ==
     CASE r.op \in Relations ->
            LET c == Winner(U, T, r, n, env) IN
            IF c = 0 THEN <<>>
-           ELSE LabelsOf(lv, U, T, r.sub, c, env) \o << IF lv = "P" THEN c ELSE RetOf(U, T, r.sub, c, env) >>
+           ELSE LabelsOf(lv, U, T, r.sub, c, env) \o << IF lv = "P" THEN c ELSE RetOfPre(U, T, r.sub, c, env) >>
       [] r.op = "all" -> AllLabels(lv, U, T, r.subs, 1, n, env)
       [] r.op = "any" ->
            LET ks == { k \in 1..Len(r.subs) : Eval("clean", U, T, r.subs[k], n, env).ok } IN
@@ -96,8 +99,7 @@ AllLabels(lv, U, T, subs, i, n, env) ==
     ELSE LabelsOf(lv, U, T, subs[i], n, env)
          \o AllLabels(lv, U, T, subs, i + 1, n, Eval("clean", U, T, subs[i], n, env).env)
 
-\* does the rule contain a relational rule whose sub-rule returns another node than the one it was asked about
-\* (the only place where I and P differ)
+\* does the rule hand on another node than the one it was asked about, in the code before the fix
 RECURSIVE ForwardsNode(_, _)
 ForwardsNode(U, r) == CASE r.op \in Relations -> TRUE
                          [] r.op = "matches" -> ForwardsNode(U, U.utils[r.id])
